@@ -1,0 +1,10 @@
+//go:build verif
+
+package cloudwatch
+
+// VerifSetAPIC04 replaces ONLY the CloudWatch API of a Client that the real NewClient /
+// NewClientFromViper built (every other field keeps what the constructor put there), by a fake that
+// reports the size of every PutMetricData request.
+func VerifSetAPIC04(c *Client, put func(datums int) error) {
+	c.cloudwatch = verifFakeC04{put: put}
+}
